@@ -28,12 +28,16 @@ LEVEL_NOTE = (
 )
 
 
+# tokens 30..39 are written `$XV_T<i>`: XSH.expand_path turns them into `t<i>` (the env var holds that text)
+EXP = [[30 + i, i] for i in range(10)]
+
+
 def tok(k):
-    return f"t{k}"
+    return f"$XV_T{k - 30}" if 30 <= k < 40 else f"t{k}"
 
 
 def untok(s):
-    return int(s[1:])
+    return 30 + int(s[5:]) if s.startswith("$XV_T") else int(s[1:])
 
 
 def gen_table(rng):
@@ -49,6 +53,8 @@ def gen_table(rng):
             ws = [rng.choice(pool) for _ in range(n)]
             if ws and rng.random() < 0.75:
                 ws[0] = rng.choice(keys)  # the leftmost word drives the expansion: make chains/cycles likely
+            # some words are spelled `$XV_Ti`, which expand_path rewrites to the alias name `ti`
+            ws = [30 + w if (w < 10 and rng.random() < 0.2) else w for w in ws]
             tbl.append([k, [Sym("words"), ws]])
         elif r < 0.74:
             tbl.append([k, [Sym("callable"), k]])
@@ -89,7 +95,7 @@ class Impl:
         self.XSH = XSH
         from xonsh.commands_cache import CommandsCache
 
-        XSH.env = Env(XONSH_SHOW_TRACEBACK=False, PATH=[])
+        XSH.env = Env(XONSH_SHOW_TRACEBACK=False, PATH=[], EXPAND_ENV_VARS=True, **{f"XV_T{i}": f"t{i}" for i in range(10)})
         if XSH.execer is None:
             XSH.execer = Execer()
         self.cc = XSH.commands_cache = CommandsCache(XSH.env)
@@ -218,9 +224,13 @@ def check_case(ctx, impl, tbl, rets, key, args, name, as_strings=frozenset()):
         return [("spec", case, {"raw": raw}, "alias resolution did not terminate within 10 s of CPU time")], None
     except RecursionError:
         return [("spec", case, {"raw": raw}, "alias resolution recursed without bound (RecursionError)")], None
-    m_r, m_decs, m_seen = ctx.driver.call("c15.get", tbl, rets, key, args)
+    m_r, m_decs, m_seen = ctx.driver.call("c15.get", tbl, rets, EXP, key, args)
     if [r, decs] != [m_r, m_decs]:
         problems.append(("dis", case, {"impl": [r, decs], "model": [m_r, m_decs], "raw": raw}, None))
+        # the model is proved to expand each alias once, append the user's arguments verbatim and collect decorators in
+        # order (Props/C15.lean) and these rules determine the result: a departure from it breaks one of those clauses
+        clause = "decorators are not collected in order" if (r == m_r and decs != m_decs) else "the resolved command differs from repeated leftmost expansion with the user's arguments appended"
+        problems.append(("spec", case, {"impl": [r, decs], "documented": [m_r, m_decs], "raw": raw}, clause))
     # --- the property, checked on the implementation directly ---------------------------------
     if not has_ret(tbl) and not isinstance(r, Sym):
         r0, decs0 = impl.get(al, key, [])
@@ -248,12 +258,14 @@ def check_case(ctx, impl, tbl, rets, key, args, name, as_strings=frozenset()):
             s = impl.resolve(al, cmd)
     except (Timeout, RecursionError):
         return problems + [("spec", case, {"raw": raw}, "SubprocSpec alias resolution did not terminate")], m_seen
-    m_s = ctx.driver.call("c15.resolve", tbl, rets, cmd)
+    m_s = ctx.driver.call("c15.resolve", tbl, rets, EXP, cmd)
     if s[1] == "valueError" or m_s[1] == "valueError":
         # the exception propagates out of resolve_alias before the spec is updated: compare the outcome only
         s, m_s = [None, s[1], None], [None, m_s[1], None]
     if s[1:] != m_s[1:] or (not isinstance(s[1], Sym) and s[0] != m_s[0]):
         problems.append(("dis", case | {"level": "spec"}, {"impl": s, "model": m_s, "raw": raw}, None))
+        clause = "SubprocSpec: decorators are not collected in order" if s[1] == m_s[1] else "SubprocSpec: resolved alias/command differs from the documented expansion"
+        problems.append(("spec", case | {"level": "spec"}, {"impl": s, "documented": m_s, "raw": raw}, clause))
     return problems, m_seen
 
 
@@ -276,7 +288,7 @@ def stream(ctx, n, name="alias-graphs"):
         for _ in range(3):
             wkeys = [k for k, v in tbl if str(v[0]) == "words" and v[1]] or keys
             key = ctx.rng.choice(wkeys + wkeys + keys + [16])
-            args = [ctx.rng.choice(keys + [20, 21, 22]) for _ in range(ctx.rng.choice([0, 1, 2, 3]))]
+            args = [ctx.rng.choice(keys + [20, 21, 22, 31, 35]) for _ in range(ctx.rng.choice([0, 1, 2, 3]))]
             problems, seen = check_case(ctx, impl, tbl, rets, key, args, name, as_strings)
             depth = len(seen) if seen else 0
             ctx.case(name, repr((tbl, rets, key, args)), depth >= 3, {"table": fmt_tbl(tbl, rets), "command": [tok(key)] + [tok(a) for a in args]})
